@@ -281,7 +281,7 @@ func (l *ordFanLink) connect(server *Server) (Transport, *ServerSession, error) 
 			hd = NewSSEHandler(getServer, nil)
 			l.hd[server] = hd
 		}
-		return &SSEClientTransport{Endpoint: url, HTTPClient: &http.Client{Transport: &ordRT{hd}}}, nil, nil
+		return &SSEClientTransport{Endpoint: url, HTTPClient: &http.Client{Transport: &ordRT{h: hd}}}, nil, nil
 	default:
 		hd := l.hd[server]
 		if hd == nil {
@@ -297,7 +297,7 @@ func (l *ordFanLink) connect(server *Server) (Transport, *ServerSession, error) 
 			hd = sh
 			l.hd[server] = hd
 		}
-		return &StreamableClientTransport{Endpoint: url, HTTPClient: &http.Client{Transport: &ordRT{hd}}}, nil, nil
+		return &StreamableClientTransport{Endpoint: url, HTTPClient: &http.Client{Transport: &ordRT{h: hd}}}, nil, nil
 	}
 }
 
